@@ -115,7 +115,7 @@ pub fn build(quick: bool) -> Check {
     families.push(Box::new(BigChunk));
     families.push(Box::new(Histories { label: "long-data".into(), hists: scale_long_data() }));
     families.push(Box::new(Histories { label: "long-data-counter-wraps".into(), hists: wraps_long_data(quick) }));
-    families.push(Box::new(super::soak::Soak { label: "chunks-and-silence", lens: super::soak::lens(quick), mixes: vec![super::soak::Mix::Chunks, super::soak::Mix::Silent, super::soak::Mix::Even], opts: super::soak::opts_all() }));
+    families.push(Box::new(super::soak::Soak { label: "chunks-and-silence", lens: super::soak::lens(quick), mixes: vec![super::soak::Mix::Chunks, super::soak::Mix::Silent, super::soak::Mix::Even], opts: super::soak::opts_all(), big: vec![] }));
     Check {
         id: "C17",
         level: "model_checking",
